@@ -136,7 +136,7 @@ CHECKS = {
              "a handler handles the successor of the last sequence it returned from (in order, exactly once, no gaps), only sequences that are completely written and covered by the producer cursor, and "
              "what it sees is intact (slot not re-used, all earlier stages done with it, no later stage touched it); sequence 0 is never delivered (known finding D7). The per-thread programs of the "
              "real code are tied to the model by TRACE VALIDATION: the extracted acceptors (Disruptor/Threads.v) must accept every logged trace operation for operation (kind, location, ordering, "
-             "operand, control flow), AND every logged trace is replayed on the proof models themselves (Disruptor/PipeReplay.v on Pipeline.v, Disruptor/MultiReplay.v on MultiPub.v: each logged operation must be an enabled step of the model in the state reached, with the model's value; replay_sound: an accepted trace ends in a reachable model state, so the theorems apply to the execution just observed). The same facts hold without the atomic-snapshot abstraction and with stale loads (Disruptor/HB.v, hb_delivery). Multi producer under true concurrency (Disruptor/MultiPub.v): everything at or below the cursor - consumers never pass it - is completely written and published, in every interleaving. MULTI-PRODUCER PIPELINES OF ANY TOPOLOGY (Disruptor/MultiPipe.v = MultiPub.v composed with the handler side Handlers.v over any barrier stages; every execution projects to an execution of each component): a handler handles i only if its claimant has published i, i is the successor of what it returned from last, and no producer has claimed the next lap of that slot; logged multi-producer executions are replayed on this product model (Disruptor/MultiPipeReplay.v, accepted => reachable). Monitors on every explored schedule check the property on the implementation itself; multi-producer DELIVERY of everything published is violated (stranding = known finding D8). The ring's slot mapping (sequence s <-> slot s mod N, through get and get_mut) is probed directly for rings of 2 .. 262 144 slots, one probe per index bit.",
+             "operand, control flow), AND every logged trace is replayed on the proof models themselves (Disruptor/PipeReplay.v on Pipeline.v, Disruptor/MultiReplay.v on MultiPub.v: each logged operation must be an enabled step of the model in the state reached, with the model's value; replay_sound: an accepted trace ends in a reachable model state, so the theorems apply to the execution just observed). The same facts hold without the atomic-snapshot abstraction and with stale loads (Disruptor/HB.v, hb_delivery). Multi producer under true concurrency (Disruptor/MultiPub.v): everything at or below the cursor - consumers never pass it - is completely written and published, in every interleaving. MULTI-PRODUCER PIPELINES OF ANY TOPOLOGY (Disruptor/MultiPipe.v = MultiPub.v composed with the handler side Handlers.v over any barrier stages; every execution projects to an execution of each component): a handler handles i only if its claimant has published i, i is the successor of what it returned from last, and no producer has claimed the next lap of that slot; logged multi-producer executions are replayed on this product model (Disruptor/MultiPipeReplay.v, accepted => reachable). Monitors on every explored schedule check the property on the implementation itself; multi-producer DELIVERY of everything published is violated (stranding = known finding D8). THE STORAGE (Disruptor/Slots.v mirrors const_array_ring_buffer.rs: data[sequence & mask], mask = N-1, unchecked access): the constructor accepts exactly the powers of two; for every 2^k and every history of writes and reads through any sequence numbers no access is out of bounds and a read returns the last write to a congruent sequence (refinement to a map on residues); the extracted model and its specification are compared with the real RingBuffer driven through DataProvider::get / get_mut for rings of 2 .. 262 144 slots, one probe per index bit plus random histories.",
         note=LEVEL_NOTE_COMMON + "Axioms: none. " + "the deterministic scheduler hooks (cfg deepcausality_rs_deep_causality_verif) make every atomic / mutex / condvar operation and slot access of the real code a scheduling point and log it with its real Ordering; Reading several cursors is abstracted to one step returning any value not above the current values (sound by monotonicity). "
              "Multi-producer delivery is explored, not proved; C11 stale reads are not explored.",
         technique="Coq proof (inductive invariant over a small-step interleaving model) + trace validation of the hooked implementation under a deterministic scheduler + trace monitors",
@@ -150,7 +150,7 @@ CHECKS = {
              "operations per thread) is pinned by trace validation on every explored execution; an independent vector-clock race detector over the Ordering arguments the code REALLY passed runs on "
              "every explored schedule too. MULTI PRODUCER under true concurrency (Disruptor/MultiPub.v + MultiPubHB.v: any number of producers and first-stage consumers, every atomic operation a step, stale cursor "
              "loads): a producer fills a slot only when every consumer is done with its previous occupant, a consumer about to touch sequence i is ordered after every fill made so far to that slot, and a "
-             "producer about to fill is ordered after every consumer access and every fill made so far to that slot. Value level for ANY topology (Disruptor/MultiPipe.v): while a producer fills its claim, every handler of every stage has returned from the previous occupant of each slot. Same-stage mutable handlers race: known finding D9 (excluded from the theorem by stage g <> stage h). The ring's slot mapping (two sequences share a slot iff they are congruent modulo N) is probed directly for rings of 2 .. 262 144 slots.",
+             "producer about to fill is ordered after every consumer access and every fill made so far to that slot. Value level for ANY topology (Disruptor/MultiPipe.v): while a producer fills its claim, every handler of every stage has returned from the previous occupant of each slot. Same-stage mutable handlers race: known finding D9 (excluded from the theorem by stage g <> stage h). THE STORAGE (Disruptor/Slots.v mirrors const_array_ring_buffer.rs): two sequences share a slot iff they are congruent modulo N and every unchecked access is in bounds (theorems, any ring of 2^k slots); the extracted model is compared with the real RingBuffer for rings of 2 .. 262 144 slots.",
         note=LEVEL_NOTE_COMMON + "Axioms: none. Release/acquire semantics are modelled as knowledge transfer (one writer per cursor, so no release sequences are needed); multi-producer happens-before is proved for producers + first-stage consumers (each ready bit its own location: the code packs 64 per word, which only adds synchronisation); later stages of a multi-producer pipeline are monitored per execution. C11 stale reads are not explored by the scheduler (the proof does not depend on read freshness beyond monotone lower bounds... in HB.v loads return the current value).",
         technique="Coq proof (inductive invariants over a per-cursor-read interleaving model with happens-before knowledge) + trace validation of orderings + vector-clock race detection on scheduler-controlled executions",
         design="§7.R C05"),
@@ -175,7 +175,7 @@ CHECKS = {
     "C13": dict(
         text="Theorems (Coq, same pipeline model): a stage-(k+1) handler handles sequence i only after EVERY stage-k handler returned from i; it sees the modifications of all earlier stages and "
              "none of later ones while the slot is not re-used; gating the producer on the last stage only suffices because the last stage is the slowest (no handler of any stage is lapped). The same stage-order theorems hold for MULTI-PRODUCER pipelines of any topology (Disruptor/MultiPipe.v: multi-producer sequencer under true concurrency composed with the handler stages). "
-             "Trace validation, replay of every logged execution on the proof model (Disruptor/PipeReplay.v: accepted => reachable state of Pipeline.v, theorem replay_sound) and monitors (stage order, overwrite) on every explored schedule. The ring's slot mapping (sequence s <-> slot s mod N, through get and get_mut) is probed directly for rings of 2 .. 262 144 slots, one probe per index bit.",
+             "Trace validation, replay of every logged execution on the proof model (Disruptor/PipeReplay.v: accepted => reachable state of Pipeline.v, theorem replay_sound) and monitors (stage order, overwrite) on every explored schedule. THE STORAGE (Disruptor/Slots.v mirrors const_array_ring_buffer.rs: data[sequence & mask], mask = N-1, unchecked access): the constructor accepts exactly the powers of two; for every 2^k and every history of writes and reads through any sequence numbers no access is out of bounds and a read returns the last write to a congruent sequence (refinement to a map on residues); the extracted model and its specification are compared with the real RingBuffer driven through DataProvider::get / get_mut for rings of 2 .. 262 144 slots, one probe per index bit plus random histories.",
         note=LEVEL_NOTE_COMMON + "Axioms: none. " + "the deterministic scheduler hooks (cfg deepcausality_rs_deep_causality_verif) make every atomic / mutex / condvar operation and slot access of the real code a scheduling point and log it with its real Ordering; ",
         technique="Coq proof (cursor chain along the stages, inductive invariant) + trace validation + trace monitors under a deterministic scheduler",
         design="§7.R C13"),
